@@ -44,6 +44,18 @@ theorem C03_heun_rows (f : Field) (inPlace : Bool) (dt : Rat) (t0 m s : Nat) (hs
     funext i y; exact C03_heunStepCode_eq f inPlace _ (Or.inl (by decide)) dt t0 i y
   rw [this]; exact C03_solve_rows _ m s hs y0
 
+/-- **The jax scheme** (`lax.scan` over `store_steps` blocks of `store_step` steps) returns the same rows for *every*
+`store_steps`/`store_step` — there is no relation between `T` and the step sizes it depends on. -/
+theorem C03_scan_rows (step : Nat → Vec → Vec) (m s : Nat) (y0 : Vec) :
+    scanSolve step m s y0 = (List.range m).map (fun k => iter step 0 (k * s) y0) := by
+  have := scanOuter_spec step s y0 m 0
+  simpa [scanSolve, iter] using this
+
+/-- hence both schemes agree whenever the numpy scheme's guard holds -/
+theorem C03_scan_eq_loop (step : Nat → Vec → Vec) (m s : Nat) (hs : 0 < s) (y0 : Vec) :
+    solve step (m * s) m s y0 = .ok ((scanSolve step m s y0).map some) := by
+  rw [C03_solve_rows step m s hs, C03_scan_rows]; simp
+
 /-- Witness for why the copy matters: with an in-place vector field and no copy the coded step is *not* Heun's
 (`x' = -x/2`, `dt = 1`, `x = 1`: 3/4 instead of 5/8). -/
 theorem C03_heun_alias_counterexample :
